@@ -11,11 +11,19 @@
     namespace_str n | prefix_str n -> ok <str> | panic     namespace_for_name n -> ok <ns> | panic
     implicit ns <strs> pf <strs> nm <local@ns,…>   (registrations observed after parse / html5())
                                           -> ok <ids> <ids> <ids>
+    parse <doc|frag> <len> <token dump>   the registrations the PARSER MODEL predicts for these tokens
+                                          (`Interner.parse` = `regAll` of `buildRegs`, Model/IdMapParse)
+    html5                                 the registrations of `Interner.html5`
+                                          -> ok ns <strs> pf <strs> nm <local@ns,…> ids <ids> <ids> <ids>
+                                             (entries the call added to each table, in id order, and
+                                              the id the read-only lookup now gives for each)
     bulk_names <count> <p> <ns> <i,j,…> | bulk_namespaces <count> <p> <i,…> | bulk_prefixes <count> <p> <i,…>
         registers p0 … p{count-1}          -> ok <ids at the sampled positions>
     clone | swap                          -> ok
 -/
 import XotModel.Model.IdMap
+import XotModel.Model.IdMapParse
+import XotModel.Driver.Parse
 import XotModel.Driver.Codec
 import XotModel.Driver.Tree
 
@@ -51,6 +59,25 @@ def showBuiltins (x : Interner) : String :=
     showBuiltin x.xmlPrefixId ((x.prefixStr x.xmlPrefixId).map encStr),
     showBuiltin x.xmlSpaceId (nm x.xmlSpaceId),
     showBuiltin x.xmlIdId (nm x.xmlIdId)]
+
+def showStrs (l : List Str) : String :=
+  if l.isEmpty then "-" else String.intercalate "," (l.map encStr)
+
+def showNames (l : List NameKey) : String :=
+  if l.isEmpty then "-" else String.intercalate "," (l.map fun k => encStr k.1 ++ "@" ++ toString k.2)
+
+def showLookups {α : Type} (f : α → Option Nat) (l : List α) : String :=
+  if l.isEmpty then "-" else String.intercalate "," (l.map fun v => match f v with
+    | some n => toString n
+    | none => "none")
+
+/-- What a call added to the three tables (the tails of the `by_id` vectors) and the ids the
+    read-only lookups give for the new entries afterwards. -/
+def showDelta (x x' : Interner) : String :=
+  let ns := x'.namespaceLookup.byId.drop x.namespaceLookup.byId.length
+  let pf := x'.prefixLookup.byId.drop x.prefixLookup.byId.length
+  let nm := x'.nameLookup.byId.drop x.nameLookup.byId.length
+  s!"ok ns {showStrs ns} pf {showStrs pf} nm {showNames nm} ids {showLookups x'.namespace ns} {showLookups x'.prefix pf} {showLookups (fun k => x'.nameNs k.1 k.2) nm}"
 
 def handleIdMap (st : DState) : List String → Option (DState × String)
   | ["new"] =>
@@ -93,6 +120,15 @@ def handleIdMap (st : DState) : List String → Option (DState × String)
       let rm := x.nameLookup.registerAll Gen.nameIdBits (← parseNameList nm)
       some ({ st with interner := { x with namespaceLookup := rn.1, prefixLookup := rp.1, nameLookup := rm.1 } },
         s!"ok {showIds rn.2} {showIds rp.2} {showIds rm.2}")
+  | "parse" :: mode :: len :: toks => do
+      let _ ← (match mode with | "doc" => some Mode.document | "frag" => some Mode.fragment | _ => none)
+      let _ ← len.toNat?
+      let (ts, _) ← parseTokens toks #[]
+      let x' := st.interner.parse ts
+      some ({ st with interner := x' }, showDelta st.interner x')
+  | ["html5"] =>
+      let x' := st.interner.html5.1
+      some ({ st with interner := x' }, showDelta st.interner x')
   | ["bulk_names", count, p, ns, samples] => do
       let x := st.interner
       let p ← decStr p
